@@ -9,6 +9,7 @@ pub mod c08;
 pub mod c13;
 pub mod c14;
 pub mod c15;
+pub mod c20;
 
 pub fn property(id: &str) -> Option<Property> {
     match id {
@@ -21,6 +22,7 @@ pub fn property(id: &str) -> Option<Property> {
         "C13" => Some(c13::property()),
         "C14" => Some(c14::property()),
         "C15" => Some(c15::property()),
+        "C20" => Some(c20::property()),
         _ => None,
     }
 }
